@@ -146,7 +146,10 @@ class HttpProtocolHandler(BaseTcpServerHandler[HttpClientConnection]):
         if self.plugin:
             self.writes_teared = await self.plugin.write_to_descriptors(writables)
             if self.writes_teared:
-                return True
+                # e.g. upstream went away while we were writing to it.
+                # Stop reading, but like for an upstream close, first deliver
+                # what has already been queued for the client.
+                self.reads_teared = True
         # Read from ready to read sockets if reads have not already teared down
         if not self.reads_teared:
             self.reads_teared = await self.handle_readables(readables)
